@@ -37,7 +37,7 @@ type numDFA struct {
 	names   map[int64]string
 	begin   int64
 	delta   map[int64]map[rune]int64 // missing = stuck
-	runes   []rune                  // representatives (every rune mentioned in the body + 'x' for the rest)
+	runes   []rune                   // representatives (every rune mentioned in the body + 'x' for the rest)
 	post    func(state int64, parsedZero bool, remaining bool) string
 	problem string
 }
